@@ -208,7 +208,40 @@ def rule_c(ctx, out):
         raise AnalysisError(f"only {n} operand searches started from positioned instructions found")
 
 
+def rule_d(ctx, out):
+    """A folded constant is evaluated once per consumer (every DUP of it re-enters the folder), so the discount it earns must be
+    counted once: in every folder the `discount_op += k` is guarded by a `not in already_considered` test and the expression is
+    recorded.  (Sibling agreement between compute_binary and compute_ternary.)"""
+    n = 0
+    for f in ctx.p.funcs_in(GO):
+        if not (calls_in(f.node, "evaluate_expression") or calls_in(f.node, "evaluate_expression_ter")):
+            continue
+        incs = [x for x in own_nodes(f.node) if isinstance(x, ast.AugAssign) and is_name(x.target, "discount_op")]
+        if not incs:
+            continue
+        n += 1
+        records = [c for c in calls_in(f.node, "append") if isinstance(c.func, ast.Attribute) and is_name(c.func.value, "already_considered")]
+        for inc in incs:
+            cur, guarded = inc, False
+            while cur is not None and cur is not f.node:
+                p = getattr(cur, "_parent", None)
+                if isinstance(p, ast.If) and cur in p.body and isinstance(p.test, (ast.Compare, ast.BoolOp)):
+                    for c in ast.walk(p.test):
+                        if isinstance(c, ast.Compare) and isinstance(c.ops[0], ast.NotIn) and is_name(c.comparators[0], "already_considered"):
+                            guarded = True
+                cur = p
+            if guarded and records:
+                out.ok({"folder": f.name, "discount": short(inc), "counted": "once per expression"})
+            else:
+                out.bad(f"{f.name}:discount-counted-per-consumer", f"{f.name} adds `{short(inc)}` every time the folded expression is evaluated; a constant "
+                        f"that is duplicated is evaluated once per consumer, so init_progr_len = instructions - discount becomes too small "
+                        f"(even negative) and no sequence fits the bound", where(f, inc))
+    if n < 2:
+        raise AnalysisError(f"only {n} constant folders with a discount found")
+
+
 RULES = [
+    ("C16.d", "the folding discount is counted once per expression", 2, rule_d),
     ("C16.c", "the discount de-duplication level is the instruction's position", 3, rule_c),
     ("C16.a", "provenance of original_instrs", 4, rule_a),
     ("C16.b", "bound inputs are fresh per sub-block", 9, rule_b),
